@@ -270,7 +270,12 @@ where
                                     );
                                 } else {
                                     for s in &**sinks.load() {
-                                        call!(s, message.clone(), "to sink: {message:?}");
+                                        // a delivery may nest another fan-out (a sink pulls from inside
+                                        // its handler and the source answers at once), which may have
+                                        // ended or detached `s` meanwhile
+                                        if sinks.load().iter().any(|x| Arc::ptr_eq(x, s)) {
+                                            call!(s, message.clone(), "to sink: {message:?}");
+                                        }
                                     }
                                 }
                                 if let Message::Error(_) | Message::Terminate = message {
